@@ -155,6 +155,19 @@ func (c *SimCron) Due(now time.Time) []SimReg {
 	return out
 }
 
+// NextDue returns the earliest due instant of any registration (zero if none).
+func (c *SimCron) NextDue() time.Time {
+	c.mu.Lock()
+	defer c.mu.Unlock()
+	var t time.Time
+	for _, r := range c.Regs {
+		if t.IsZero() || r.Due.Before(t) {
+			t = r.Due
+		}
+	}
+	return t
+}
+
 // Registered lists the registrations (sorted "loc/id").
 func (c *SimCron) Registered() []string {
 	c.mu.Lock()
